@@ -76,6 +76,44 @@ fn write_varint_u32(mut v: u32, out: &mut [u8]) -> usize {
     i + 1
 }
 
+/// Where to cut a non-empty run of leaf entries so that each half fits one leaf page; the right
+/// half is never empty.
+///
+/// Cells differ in size, so the middle *entry* can leave one half larger than a page; the cut is
+/// the one that balances the two halves in bytes among the cuts where both halves fit.
+fn leaf_split_point(entries: &[(Vec<u8>, u64)]) -> Result<usize> {
+    let cap = PAGE_SIZE - header_size(PageKind::Leaf);
+    let mut total = 0usize;
+    for i in 0..entries.len() {
+        total += cell_space(entries[i].0.len());
+    }
+
+    // entries.len() = nothing found yet.
+    let mut best_mid = entries.len();
+    let mut best_skew = 0usize;
+    let mut left = 0usize;
+    for mid in 0..entries.len() {
+        let right = total - left;
+        if left <= cap && right <= cap {
+            let skew = if left > right { left - right } else { right - left };
+            if best_mid == entries.len() || skew < best_skew {
+                best_mid = mid;
+                best_skew = skew;
+            }
+        }
+        left += cell_space(entries[mid].0.len());
+    }
+    if best_mid == entries.len() {
+        return Err(Error::WalProtocol("index page: entry too large to split"));
+    }
+    Ok(best_mid)
+}
+
+/// Bytes one leaf cell takes in a page: slot, key length varint, key, payload.
+fn cell_space(key_len: usize) -> usize {
+    2 + varint_u32_len(key_len as u32) + key_len + 8
+}
+
 fn read_varint_u32(buf: &[u8]) -> Option<(u32, usize)> {
     let mut v: u32 = 0;
     let mut shift = 0;
@@ -492,7 +530,7 @@ impl BTree {
                             let pos = entries.partition_point(|(k, _)| k.as_slice() < key);
                             entries.insert(pos, (key.to_vec(), payload));
 
-                            let mid = entries.len() / 2;
+                            let mid = leaf_split_point(&entries)?;
                             let left_entries = entries[..mid].to_vec();
                             let right_entries = entries[mid..].to_vec();
                             let sep_key = right_entries[0].0.clone();
